@@ -45,6 +45,10 @@ class World:
         self.inputs = set()
 
     # -- scalars --
+    def _junk(self):
+        self._nj = getattr(self, "_nj", 0) + 1
+        return self._nj
+
     def id_(self, name):
         self.inputs.add(name)
         return self.dom.input_scalar(name)
@@ -88,7 +92,9 @@ class World:
             a = self.new(NS + "Attribute")
             a.f["idx"].v = idx
             a.f["omitFromKeys"].v = 1 if (v is None or idx in flagged) else 0
-            a.f["id"].val = 0 if v is None else v          # Go binding: nil -> id = 0, omitFromKeys
+            # an omitFromKeys entry's id is NOT assumed to be 0 (that is only the Go binding's convention): it is an arbitrary value the key
+            # functions must ignore -- a fresh symbol no expected result mentions
+            a.f["id"].val = self.id_("ignored_id%d_%d" % (idx, self._junk())) if v is None else v
             arr.append(a)
         al = self.new(NS + "AttributeList")
         al.f["attrs"].v = Ptr(Arr(NS + "Attribute", arr), 0)
